@@ -147,6 +147,14 @@ class PanelCtx:
         out = FakeLam()
         for k, v in lam.__dict__.items():
             setattr(out, k, v.copy() if isinstance(v, np.ndarray) else v)
+        if hasattr(out, 'ABD') and not (isinstance(offset, (int, float)) and offset == 0) and not (isinstance(offset, Sym) and offset.is_zero()):
+            # reference-surface shift (decided for the real read_stack by C01): A' = A, B' = B + d A, D' = D + 2 d B + d^2 A
+            A0, B0, D0 = out.ABD[0:3, 0:3].copy(), out.ABD[0:3, 3:6].copy(), out.ABD[3:6, 3:6].copy()
+            d_ = Sym.lift(offset)
+            for i in range(3):
+                for j in range(3):
+                    out.ABD[i, 3 + j] = out.ABD[3 + j, i] = B0[i, j] + d_ * A0[i, j]
+                    out.ABD[3 + i, 3 + j] = D0[i, j] + 2 * d_ * B0[i, j] + d_ * d_ * A0[i, j]
         if hasattr(out, 'ABD'):
             out.A, out.B, out.D = out.ABD[0:3, 0:3], out.ABD[0:3, 3:6], out.ABD[3:6, 3:6]
         out.offset_passed = offset
